@@ -10,9 +10,9 @@
   delivers messages one after the other, application threads read and switch combining at any time: a schedule is
   a `List Act`.  `stepU` additionally has the two regions of the *old* `set_combine_stderr` (for the witness).
 -/
-import PV.Base.Bytes
+import PV.Base.Wire
 namespace PV.Mux
-open PV
+open PV PV.Wire
 
 inductive Res where
   | data (b : Bytes)
@@ -171,6 +171,25 @@ def freshList : Nat → List (Nat × Chan)
   | k + 1 => (k, {}) :: freshList k
 
 def freshL (k : Nat) : Table := { l := freshList k }
+
+/-! ## the exit-status request on the wire (`Channel.send_exit_status` → `Channel._handle_request`) -/
+
+/-- "exit-status" -/
+def exitStatusName : Bytes := [101, 120, 105, 116, 45, 115, 116, 97, 116, 117, 115]
+
+/-- what follows the recipient channel id: string "exit-status", boolean FALSE (want-reply), uint32 status — RFC 4254 §6.10;
+the status is a fixed four-byte big-endian field -/
+def exitStatusBody (v : Nat) : Bytes := encodeAll [.str exitStatusName, .bool false, .u32 v]
+
+/-- the whole message `send_exit_status(v)` hands to the transport for a channel whose remote id is `rid` -/
+def exitStatusRequest (rid v : Nat) : Bytes := encodeAll [.byte 98, .u32 rid] ++ exitStatusBody v
+
+/-- `_handle_request` on the bytes after the channel id: request name, want-reply flag, and — for "exit-status" — the
+status read with `get_int` -/
+def handleRequestExit (body : Bytes) : Option Nat :=
+  let (name, r1) := Rd.getString { content := body, pos := 0 }
+  let (_, r2) := r1.getBytes 1
+  if name = exitStatusName then some (r2.getInt).1 else none
 
 /-! ## what the peer sent, as a function of the history alone -/
 
